@@ -420,6 +420,15 @@ def mk_fn(name, *args):
                 f = Poly({tuple(sorted(((a, -e) for a, e in common.items()), key=lambda t: repr(t[0]))): Fraction(1)})
                 args = (P(qp * f), B(args[1][1], xp * f)) + tuple(args[2:])
     if name == 'lininterp' and len(args) >= 3 and args[0][0] == 'P' and args[1][0] == 'B' and args[2][0] == 'B' and args[1][1] == args[2][1] \
+            and ('C', 'assume_sorted=True') in args[3:]:
+        # the caller vouches for the order: when the table was put in the order of its own abscissa (both columns gathered by argsort of the abscissa) this
+        # is what interp1d does by itself, so the option and the gather drop out together
+        lab_ = args[1][1]
+        xp, fp = Poly.from_key(args[1][2]), Poly.from_key(args[2][2])
+        got = _ungather([xp, fp], lab_)
+        if got is not None and index_at(got[0], lab_, array_fn('argsort', lab_, got[0])) == xp:
+            args = (args[0], B(lab_, got[0]), B(lab_, got[1])) + tuple(x for x in args[3:] if x != ('C', 'assume_sorted=True'))
+    if name == 'lininterp' and len(args) >= 3 and args[0][0] == 'P' and args[1][0] == 'B' and args[2][0] == 'B' and args[1][1] == args[2][1] \
             and ('C', 'assume_sorted=True') not in args[3:]:
         # scipy's interp1d sorts the table by its abscissa itself: a table whose abscissa and ordinate were gathered by one and the same permutation
         # is the table before the gather
@@ -915,6 +924,33 @@ def count(label):
 
 # ---------------------------------------------------------------- rebuild / substitute
 
+def _extreme_of_sorted(p, label, idx):
+    """x[argsort(x)[-1]] == max(x) and x[argsort(x)[0]] == min(x), for x = the array ``p`` over ``label``; None when idx is not of that form"""
+    if not idx.is_monomial():
+        return None
+    (m, c), = idx.t.items()
+    if not (c == 1 and len(m) == 1 and m[0][1] == 1):
+        return None
+    a = m[0][0]
+    if not (a[0] == 'fn' and a[1] == 'at' and len(a) == 4 and a[2][0] == 'B' and a[3][0] == 'P'):
+        return None
+    pos = Poly.from_key(a[3][1])
+    if not (pos.is_const() and pos.const_value() in (0, -1)):
+        return None
+    inner = Poly.from_key(a[2][2])
+    if not inner.is_monomial():
+        return None
+    (mi, ci), = inner.t.items()
+    if not (ci == 1 and len(mi) == 1 and mi[0][1] == 1):
+        return None
+    s_ = mi[0][0]
+    if not (s_[0] == 'fn' and s_[1] == 'argsort' and len(s_) == 4 and s_[2] == ('L', a[2][1]) and s_[3][0] == 'B'):
+        return None
+    if relabel(Poly.from_key(s_[3][2]), s_[3][1], label) != p:
+        return None
+    return mk_fn('max' if pos.const_value() == -1 else 'min', B(label, p))
+
+
 def index_at(p, label, idx):
     """The element of the term ``p`` at position ``idx`` of axis ``label``: gathering commutes with every element-wise
     operation, so the index is pushed down to the leaves: free occurrences x[label] become at(label -> x, idx);
@@ -923,6 +959,9 @@ def index_at(p, label, idx):
     run = Poly.atom(('sym', 'idx:' + str(label), (label,)))
     if idx == Poly.atom(('fn', 'arange', ('L', label))):
         return p                               # x[arange(n)] == x
+    ext_ = _extreme_of_sorted(p, label, idx)
+    if ext_ is not None:
+        return ext_
     memo = {}
 
     def go(q):
